@@ -17,5 +17,7 @@ for h in list(HARNESSES):
         HARNESSES.append(g)
 # the wrappers' part: header rewritten after every write iff auto-update is on, frame count/dataend bookkeeping (C05 wrappers)
 HARNESSES += [h for h in _load("C05").HARNESSES if h.name.startswith("wrap.write") and ".ch2" in h.name]
+HARNESSES += _load("blk_common").sds_harnesses(("SEL_HEADER",))
+
 META = {"assumptions": ["crash image = memory-file content at the instant the update returns"],
         "outside": ["the audio prefix itself (C01 codec identity)", "block codecs", "OS-level write ordering"]}
